@@ -464,7 +464,7 @@ func (e *Engine) freshMap(s *State, mt *types.Map, hint string) Value {
 	if vs, vok := scalarSort(mt.Elem()); vok {
 		ms.VS = vs
 		ms.Val = s.freshConst(hint+"_val", fmt.Sprintf("(Array %s %s)", ks, vs))
-	} else if _, isStruct := mt.Elem().Underlying().(*types.Struct); isStruct {
+	} else if isStructOrSlice(mt.Elem()) {
 		ms.VT = mt.Elem()
 		ms.Leaves, _ = leavesOf(mt.Elem())
 		for _, l := range ms.Leaves {
@@ -553,4 +553,16 @@ func (e *Engine) zeroOpaque(s *State, ot *OpaqueType) Value {
 		}
 	}
 	return Sc{n, ot.Sort}
+}
+
+// isStructOrSlice: map value types kept leaf by leaf (a slice value is its four header leaves).
+func isStructOrSlice(t types.Type) bool {
+	switch t.Underlying().(type) {
+	case *types.Struct:
+		return true
+	case *types.Slice:
+		ls, complete := leavesOf(t)
+		return complete && len(ls) > 0
+	}
+	return false
 }
